@@ -2,6 +2,7 @@ import ScrapliModel.Lemmas.Queue
 import ScrapliModel.Lemmas.QueueSolo
 import ScrapliModel.Lemmas.QueueChan
 import ScrapliModel.Lemmas.QueueMulti
+import ScrapliModel.Generated.C20ReadLoop
 import ScrapliModel.Lemmas.GoSem
 import ScrapliModel.Generated.BodiesQueue
 /-!
@@ -442,6 +443,34 @@ theorem chan_stream_plain (strip : Bytes → Bytes) (reads : List Bytes)
 
 example : ∀ r ∈ ([[13, 97], [], [98, 13]] : List Bytes), (Scrapli.Chan.dropCR r).contains ESC = false := by
   decide
+
+/-! ## an enqueued chunk is a copy (value semantics)
+
+The queue model holds byte strings; the Go queue holds slices. The two agree only if what the read
+loop enqueues is a private copy: a transport may return views of one buffer that its next `Read`
+overwrites (`transport.Implementation` does not promise a fresh slice per read). -/
+
+/-- The named correspondence: a read loop whose normalisation always copies enqueues VALUES — over a
+transport that reuses one read buffer, and whatever that buffer holds when a consumer finally
+dequeues, the consumers see exactly `Chan.enqueued norm reads` (what `chan_end_to_end` assumes). -/
+theorem chan_enqueued_chunk_is_copy (norm : Bytes → Bytes) (reads : List Bytes) (buf later : Bytes) :
+    ((Chan.Aliased.loop (fun _ => true) norm reads buf).1.map (Chan.Aliased.resolve later))
+      = Chan.enqueued norm reads :=
+  Chan.Aliased.loop_copying norm reads buf later
+
+/-- Negative witness: if the read loop copies only the reads that contain CR (a "skip ReplaceAll when
+there is nothing to replace" optimisation), two reads `ab`, `cd` queued before the consumer dequeues
+resolve to `cd`, `cd`: the first chunk is lost and the second duplicated. -/
+theorem chan_uncopied_chunk_is_overwritten :
+    let r := Chan.Aliased.loop (fun r => r.contains CR) Scrapli.Chan.dropCR [[97, 98], [99, 100]] []
+    (r.1.map (Chan.Aliased.resolve r.2)).flatten = [99, 100, 99, 100] ∧
+      Chan.stream Scrapli.Chan.dropCR [[97, 98], [99, 100]] = [97, 98, 99, 100] := by
+  decide
+
+/-- Source fact, regenerated from `channel/read.go` on every run: between `c.t.Read()` and
+`c.Q.Enqueue(b)` the read loop passes `b` through an unconditional copying step
+(`Gen.C20ReadLoop.copyingStep`, today `b = bytes.ReplaceAll(b, "\r", "")`). -/
+theorem read_loop_enqueues_a_copy : Gen.C20ReadLoop.enqueueCopies = true := by decide
 
 /-! ## tie to the source: translated method bodies = the `Seq` layer (regenerated on every run)
 
